@@ -11,7 +11,7 @@ def run(run):
                 'index (dindex) and its set of extents must equal the model\'s')
     d = run.driver
     rng = run.rng
-    for tab, pc in lat.contexts(run, exh_quick=8, rand_quick=200, wide_quick=8, exh_thorough=11, nmax=8, mmax=8):
+    for tab, pc in lat.contexts(run, exh_quick=8, rand_quick=200, wide_quick=8, exh_thorough=13, nmax=8, mmax=8):
         if min(pc.n, pc.m) > 8:
             continue
         extra = {'objects': pc.objects, 'properties': pc.properties, 'bools': pc.bools}
